@@ -71,9 +71,16 @@ def build_traces(path, tier, seed):
             s2 = spec_fn(alpha * a, dt, periods, xi)
             s3 = spec_fn(-a, dt, periods, xi)
             for q in range(3):
-                sc = abs(alpha) * float(np.max(np.abs(s1[q]))) + 1e-300
+                # "to rounding" is relative to the natural size of the response (|a|max / w^2, / w, 1), as for the Linear clause: for
+                # xi = 0 and T/dt = 1/5, 1 ... the exact response vanishes at the sample instants and the reported spectrum of a
+                # constant record is rounding noise (1e-16 of that size), which does not scale with alpha
+                w_min = 2 * np.pi / max(float(np.max(periods)), 1e-300)
+                nat = float(np.max(np.abs(a))) * [1.0 / w_min ** 2, 1.0 / w_min, 1.0][q]
+                sc = abs(alpha) * (float(np.max(np.abs(s1[q]))) + 1e-7 * nat) + 1e-300
+                if q < 2 and float(np.max(np.abs(s1[q]))) < 1e-6 * nat:
+                    continue          # the spectrum itself is rounding noise here (nothing to scale)
                 lin("SpectraHomogeneous", abs(alpha), s1[q], 0.0, s1[q], s2[q], dict(m, fn=nme, q=q), 1e-9, sc)
-                lin("SpectraHomogeneous", 1.0, s1[q], 0.0, s1[q], s3[q], dict(m, fn=nme, q=q, sign=True), 1e-12, float(np.max(np.abs(s1[q]))) + 1e-300)
+                lin("SpectraHomogeneous", 1.0, s1[q], 0.0, s1[q], s3[q], dict(m, fn=nme, q=q, sign=True), 1e-12, float(np.max(np.abs(s1[q]))) + 1e-4 * nat + 1e-300)
         # causality: change the record after index j
         j = int(rng.integers(0, n - 1))
         a2 = a.copy()
